@@ -125,8 +125,34 @@ func TestC15(t *testing.T) {
 			}
 			scfg.CurvePreferences = []tls.CurveID{hrrGroup}
 		}
+		// the list the client is given: the config alone, or (accepting servers) a list of
+		// several entries as after a key rotation - the usable config first, in the middle or
+		// last, next to a second config (whose key the server holds as well) or an entry of an
+		// unknown version
+		list := peer.ECHConfigList(key)
+		pickedID := j.cfgID // the config the client has to pick: the first one it supports
+		if j.behave != "reject" {
+			second := peer.NewECHKey(j.cfgID+1, public, aeads, j.maxName)
+			switch i % 6 {
+			case 1:
+				list = peer.ECHConfigListRaw(key.Config, second.Config)
+			case 2:
+				list = peer.ECHConfigListRaw(second.Config, key.Config)
+				pickedID = j.cfgID + 1
+			case 3:
+				list = peer.ECHConfigListRaw(peer.ECHUnknownVersionEntry(40), key.Config)
+			case 4:
+				list = peer.ECHConfigListRaw(key.Config, peer.ECHUnknownVersionEntry(17))
+			case 5:
+				list = peer.ECHConfigListRaw(key.Config, second.Config, key.Config)
+			}
+			if i%6 != 0 {
+				scfg.EncryptedClientHelloKeys = peer.ECHServerKeys(true, key, second)
+				r.Count("multi_entry_config_lists", 1)
+			}
+		}
 		extra := func(c *tls.Config) {
-			c.EncryptedClientHelloConfigList = peer.ECHConfigList(key)
+			c.EncryptedClientHelloConfigList = list
 			c.NextProtos = []string{"h2", "http/1.1"}
 		}
 		tgt := j.t
@@ -192,9 +218,9 @@ func TestC15(t *testing.T) {
 			if ch.ECH == nil || ch.ECH.Inner {
 				sig["kind"] = "no_outer_ech_extension"
 				r.Violation(sig, fmt.Sprintf("%s CH%d carries no outer encrypted_client_hello extension", j.t.Name, hi+1), rep)
-			} else if hi == 0 && (ch.ECH.ConfigID != j.cfgID || ch.ECH.KDF != 1) {
+			} else if hi == 0 && (ch.ECH.ConfigID != pickedID || ch.ECH.KDF != 1) {
 				sig["kind"] = "ech_extension_fields"
-				r.Violation(sig, fmt.Sprintf("%s: outer ECH has config id %d / kdf %d, config says %d / 1", j.t.Name, ch.ECH.ConfigID, ch.ECH.KDF, j.cfgID), rep)
+				r.Violation(sig, fmt.Sprintf("%s: outer ECH has config id %d / kdf %d, config says %d / 1", j.t.Name, ch.ECH.ConfigID, ch.ECH.KDF, pickedID), rep)
 			}
 		}
 		switch j.behave {
